@@ -65,7 +65,7 @@ def run(chk, tier, scale=1.0):
 
 
 def _burst_jobs(b, chk, tier, scale):
-    return [dict(build=b, seed=chk.seed * 977 + k, n=[40, 120, 300, 700][k % 4], service=(k % 3 == 1), after=(k % 2 == 1), sock=(k % 4 in (1, 2)))
+    return [dict(build=b, seed=chk.seed * 977 + k, n=[40, 120, 300, 700][k % 4], service=(k % 3 == 1), after=(k % 2 == 1), sock=(k % 4 in (1, 2)), pad4096=(k % 3 == 2))
             for k in range(int((12 if tier == "quick" else 200) * scale) or 1)]
 
 
@@ -75,7 +75,7 @@ def replay(chk, rep):
         return sitemodel.replay_site(chk, rep["witness"], "C03", ('C03', 'crash'))
     w = rep["witness"]
     if w.get("burst"):
-        r = pcommon.burst_worker(dict(build=prun.build_daemon("c03-replay"), seed=w["seed"], n=w["n"], service=w["service"], after=w.get("after"), sock=w.get("sock")))
+        r = pcommon.burst_worker(dict(build=prun.build_daemon("c03-replay"), seed=w["seed"], n=w["n"], service=w["service"], after=w.get("after"), sock=w.get("sock"), pad4096=w.get("pad4096")))
         for v in r["viol"]:
             print(v[3])
         return 1 if r["viol"] else 0
